@@ -80,6 +80,99 @@ theorem C17_unsynchronised_never_reissued (cfg : Cfg) (unsync : SP.Spoiled) (act
     unsync o.id (o.handouts - 1) = false :=
   ((SP.J.init unsync cfg).run h).log _ ho hn
 
+/-! ### one connection over its whole life -/
+
+/-- invariant of one connection's life: the model's watch flag is what the server derives from
+the commands it received; every ping value in the server's log is below the manager's counter
+(so the next one is new on this connection as well); the ping values on the connection increase
+strictly -/
+structure ConnInv (mc : Mgr × Conn) : Prop where
+  flag : mc.2.watched = watchedOf mc.2.log
+  below : ∀ n ∈ pingsOf mc.2.log, n < mc.1.pingNumber
+  incr : (pingsOf mc.2.log).Pairwise (· < ·)
+
+theorem watchedOf_append (l : List Cmd) (c : Cmd) :
+    watchedOf (l ++ [c]) = watchStep (watchedOf l) c := by
+  simp [watchedOf, List.foldl_append]
+
+theorem pingsOf_append (l l' : List Cmd) : pingsOf (l ++ l') = pingsOf l ++ pingsOf l' := by
+  simp [pingsOf, List.filterMap_append]
+
+theorem ConnInv.step {mc : Mgr × Conn} (h : ConnInv mc) (op : ConnOp) : ConnInv (connStep mc op) := by
+  obtain ⟨hf, hb, hi⟩ := h
+  cases op with
+  | watch =>
+    refine ⟨?_, ?_, ?_⟩
+    · simp [connStep, Conn.watch, watchedOf_append, watchStep]
+    · simpa [connStep, Conn.watch, pingsOf_append, pingsOf] using hb
+    · simpa [connStep, Conn.watch, pingsOf_append, pingsOf] using hi
+  | other =>
+    refine ⟨?_, ?_, ?_⟩
+    · simp [connStep, watchedOf_append, watchStep, hf]
+    · simpa [connStep, pingsOf_append, pingsOf] using hb
+    · simpa [connStep, pingsOf_append, pingsOf] using hi
+  | recycle r =>
+    refine ⟨?_, ?_, ?_⟩
+    · have : mc.2.log ++ [Cmd.unwatch, Cmd.ping mc.1.pingNumber]
+          = (mc.2.log ++ [Cmd.unwatch]) ++ [Cmd.ping mc.1.pingNumber] := by simp
+      simp only [connStep, recycle]
+      rw [this, watchedOf_append, watchedOf_append]
+      simp [watchStep]
+    · intro n hn
+      simp [connStep, recycle, pingsOf_append, pingsOf] at hn
+      rcases hn with hn | hn
+      · have := hb n (by simpa [pingsOf] using hn)
+        simp [connStep, recycle]; omega
+      · simp [connStep, recycle]; omega
+    · simp only [connStep, recycle, pingsOf_append]
+      rw [List.pairwise_append]
+      refine ⟨hi, by simp [pingsOf], ?_⟩
+      intro a ha b hb'
+      simp [pingsOf] at hb'
+      have := hb a ha
+      omega
+
+theorem ConnInv.init (m : Mgr) : ConnInv (m, {}) := by
+  refine ⟨by simp [watchedOf], by simp [pingsOf], by simp [pingsOf]⟩
+
+theorem ConnInv.run (m : Mgr) (ops : List ConnOp) : ConnInv (ops.foldl connStep (m, {})) := by
+  suffices ∀ mc, ConnInv mc → ConnInv (ops.foldl connStep mc) from this _ (ConnInv.init m)
+  induction ops with
+  | nil => intro mc h; simpa
+  | cons op ops ih => intro mc h; exact ih _ (h.step op)
+
+/-- **C17 (clean at every hand-out, whole life of a connection).** Take any connection, created
+when the manager's counter was anything, and ANY sequence of user commands (`WATCH`, anything
+else) and recycles with arbitrary server answers.  If the sequence ends with a recycle - the
+only step after which the pool may hand the connection out again - then the watch state the
+server itself derives from the commands it received is clear, however many `WATCH`es earlier
+users left behind; the ping values the server saw on the connection increase strictly (so no
+earlier echo that is still in flight can equal the value now awaited), and the model's flag
+agrees with the server's view throughout. -/
+theorem C17_clean_at_handout (m : Mgr) (ops : List ConnOp) (r : Reply) :
+    watchedOf ((ops ++ [ConnOp.recycle r]).foldl connStep (m, {})).2.log = false ∧
+    ((ops ++ [ConnOp.recycle r]).foldl connStep (m, {})).2.watched = false ∧
+    (pingsOf ((ops ++ [ConnOp.recycle r]).foldl connStep (m, {})).2.log).Pairwise (· < ·) ∧
+    ∀ n ∈ pingsOf ((ops ++ [ConnOp.recycle r]).foldl connStep (m, {})).2.log,
+      n < ((ops ++ [ConnOp.recycle r]).foldl connStep (m, {})).1.pingNumber := by
+  have h := ConnInv.run m (ops ++ [ConnOp.recycle r])
+  have hw : ((ops ++ [ConnOp.recycle r]).foldl connStep (m, {})).2.watched = false := by
+    simp [List.foldl_append, connStep, recycle]
+  exact ⟨by rw [← h.flag]; exact hw, hw, h.incr, h.below⟩
+
+/-- an earlier ping value of the connection's whole life is never accepted by a later recycle -/
+theorem C17_old_echo_rejected (m : Mgr) (ops : List ConnOp) (v : Nat)
+    (hv : v ∈ pingsOf (ops.foldl connStep (m, {})).2.log) :
+    let mc := ops.foldl connStep (m, {})
+    (recycle mc.1 mc.2 (.echo (some v))).2.2 = false := by
+  intro mc
+  exact C17_stale_rejected _ _ _ ((ConnInv.run m ops).below v hv)
+
+example : watchedOf ([ConnOp.watch, .other, .recycle .drop, .watch].foldl connStep (({ pingNumber := 3 } : Mgr), {})).2.log = true ∧
+    watchedOf ([ConnOp.watch, .other, .recycle .drop, .watch, .recycle .silent].foldl connStep (({ pingNumber := 3 } : Mgr), {})).2.log = false ∧
+    pingsOf ([ConnOp.watch, .recycle .drop, .watch, .recycle .silent].foldl connStep (({ pingNumber := 3 } : Mgr), {})).2.log = [3, 4] := by
+  decide
+
 /-! Non-vacuity -/
 example : (recycle { pingNumber := 7 } { watched := true } (.echo (some 7))).2.2 = true ∧
     (recycle { pingNumber := 7 } { watched := true } (.echo (some 6))).2.2 = false ∧
